@@ -70,8 +70,10 @@ type l1world struct {
 	nops        int
 	lastDeleted int
 	faulty      bool
+	crashy      bool
 	fired       int
 	emptied     map[int]bool
+	roH         map[int]bool
 }
 
 func (w *l1world) cfg() kv.Config {
@@ -332,7 +334,7 @@ func (w *l1world) exec(op *kop, hstats map[string]int) (known string, ok bool) {
 	out := w.out
 	var o tw
 	db := w.hs[op.h]
-	needsH := op.kind != "open" && op.kind != "list"
+	needsH := op.kind != "open" && op.kind != "list" && op.kind != "recover"
 	if needsH && db == nil {
 		return "", false
 	}
@@ -385,6 +387,7 @@ func (w *l1world) exec(op *kop, hstats map[string]int) (known string, ok bool) {
 		w.names(&o, retire)
 		if err == nil {
 			w.hs[op.h] = ndb
+			w.roH[op.h] = op.ro
 			w.opened = append(w.opened, ndb)
 			ok = true
 			hstats["open_ok"]++
@@ -449,6 +452,7 @@ func (w *l1world) exec(op *kop, hstats map[string]int) (known string, ok bool) {
 		if err == nil {
 			w.hs[op.h2] = ndb
 			w.emptied[op.h2] = w.emptied[op.h]
+			w.roH[op.h2] = w.roH[op.h]
 			ok = true
 		}
 	case "rmtomb":
@@ -495,7 +499,11 @@ func (w *l1world) exec(op *kop, hstats map[string]int) (known string, ok bool) {
 			w.names(out, roots)
 			out.s("}")
 		}
-		out.b(db.IsDirty())
+		if w.roH[op.h] {
+			out.s("-") // reflect.DeepEqual on protobuf rows makes the dirty flag of read-only merged views unpredictable
+		} else {
+			out.b(db.IsDirty())
+		}
 		out.u(db.Size())
 	case "delhist":
 		o.s("delhist")
@@ -567,6 +575,144 @@ func (w *l1world) exec(op *kop, hstats map[string]int) (known string, ok bool) {
 			out.sb.WriteString(sub.String())
 		}
 		hstats["trace"]++
+	case "ccommit":
+		// commit with crash exploration: the commit runs for real; then for every prefix of its
+		// mutation log a copy of the pre-commit bucket with that prefix applied is recovered
+		// read-only and read-write (a process dying between two storage requests)
+		before := w.s3.snapshot()
+		w.s3.resetLog()
+		name, err := db.Commit(ctx)
+		out.s(";")
+		okerr(out, err)
+		if err == nil {
+			if name == nil {
+				out.s("#0")
+			} else {
+				out.s(w.nm.nm(*name))
+				known = *name
+			}
+		}
+		w.s3.mu.Lock()
+		full := append([]reqRec{}, w.s3.log...)
+		w.s3.mu.Unlock()
+		var mo tw
+		_, retire := w.muts(&mo, "[", "]")
+		out.sb.WriteString(mo.String())
+		var mutsOnly []reqRec
+		for _, r := range full {
+			if r.ok && (r.kind == "P" || r.kind == "D") {
+				mutsOnly = append(mutsOnly, r)
+			}
+		}
+		o.s("ccommit")
+		o.i(op.h)
+		w.names(&o, retire)
+		o.z(op.seed)
+		o.i(len(mutsOnly))
+		for j := 0; j <= len(mutsOnly); j++ {
+			snap := fromSnapshot(before)
+			for _, r := range mutsOnly[:j] {
+				if r.kind == "P" {
+					snap.objs[r.key] = r.val
+				} else {
+					delete(snap.objs, r.key)
+				}
+			}
+			for pass := 0; pass < 2; pass++ {
+				ro := pass == 0
+				s2 := fromSnapshot(snap.snapshot())
+				rand.Seed(op.seed + int64(j))
+				var rdb *kv.DB
+				var rerr error
+				panicked := catch(func() { rdb, rerr = kv.Open(ctx, s2, w.cfg(), kv.OpenOptions{ReadOnly: ro}, time.Unix(0, baseTime+5)) })
+				out.s("C")
+				if panicked {
+					out.s("panic")
+				} else if rerr != nil {
+					out.s("err")
+				} else {
+					out.s("ok")
+					if err := w.dump(out, rdb); err != nil {
+						out.s("err")
+					}
+					rdb.Cancel()
+				}
+				var order, rret []string
+				seen := map[string]bool{}
+				for _, r := range s2.takeLog() {
+					cl, nm := classify(r.key)
+					if r.kind == "G" && cl == "c" && !seen[nm] {
+						seen[nm] = true
+						order = append(order, nm)
+					}
+					if r.ok && r.kind == "P" && cl == "m" {
+						rret = append(rret, nm)
+					}
+				}
+				w.names(&o, order)
+				w.names(&o, rret)
+			}
+		}
+		hstats["ccommit"]++
+		hstats[fmt.Sprintf("ccommit_muts_%d", min(len(mutsOnly), 8))]++
+	case "vacuum":
+		// s3db.Vacuum on a registered table whose tree is this handle (rows mode only)
+		o.s("vacuum")
+		o.i(op.h)
+		o.z(op.before)
+		tbl := vacuumTable()
+		tbl.Tree.Root = db
+		w.s3.resetLog()
+		var err error
+		panicked := catch(func() { err = s3db.Vacuum(ctx, tbl.Name, time.Unix(0, op.before)) })
+		w.hs[op.h] = tbl.Tree.Root
+		if w.hs[op.h] != db {
+			w.opened = append(w.opened, w.hs[op.h])
+		}
+		out.s(";")
+		if panicked {
+			out.s("panic")
+		} else {
+			okerr(out, err)
+		}
+		var mo tw
+		_, retire := w.muts(&mo, "{", "}")
+		w.lastDeleted = strings.Count(mo.String(), " D")
+		out.sb.WriteString(mo.String())
+		w.names(&o, retire)
+		hstats["vacuum"]++
+	case "recover":
+		// a fresh process, after every fault has cleared: read-only open of a copy of the bucket
+		o.s("recover")
+		o.z(op.seed)
+		out.s(";")
+		snap := fromSnapshot(w.s3.snapshot())
+		rand.Seed(op.seed)
+		var rdb *kv.DB
+		var err error
+		panicked := catch(func() { rdb, err = kv.Open(ctx, snap, w.cfg(), kv.OpenOptions{ReadOnly: true}, time.Unix(0, baseTime)) })
+		if panicked {
+			out.s("panic")
+		} else if err != nil {
+			out.s("err")
+		} else {
+			out.s("ok")
+			if err := w.dump(out, rdb); err != nil {
+				out.s("err")
+			}
+			rdb.Cancel()
+		}
+		var order []string
+		seen := map[string]bool{}
+		for _, r := range snap.takeLog() {
+			cl, name := classify(r.key)
+			if r.kind == "G" && cl == "c" && !seen[name] {
+				seen[name] = true
+				order = append(order, name)
+			}
+		}
+		w.names(&o, order)
+		hstats["recover"]++
 	case "list":
 		o.s("list")
 		out.s(";")
@@ -591,7 +737,7 @@ func (w *l1world) exec(op *kop, hstats map[string]int) (known string, ok bool) {
 }
 
 func newL1World(mode string, bf int) *l1world {
-	return &l1world{mode: mode, bf: bf, s3: newFakeS3(), nm: newNamer("#"), nn: newNamer("%"), hs: map[int]*kv.DB{}, in: &tw{}, out: &tw{}, ops: &tw{}, emptied: map[int]bool{}}
+	return &l1world{mode: mode, bf: bf, s3: newFakeS3(), nm: newNamer("#"), nn: newNamer("%"), hs: map[int]*kv.DB{}, in: &tw{}, out: &tw{}, ops: &tw{}, emptied: map[int]bool{}, roH: map[int]bool{}}
 }
 
 func (w *l1world) finish() (string, string) {
@@ -610,13 +756,14 @@ func (w *l1world) finish() (string, string) {
 }
 
 // generate-and-run one history
-func runL1History(g *gen, mode string, nops int, hstats map[string]int, faulty bool) (string, string) {
+func runL1History(g *gen, mode string, nops int, hstats map[string]int, faulty, crashy bool) (string, string) {
 	bf := []int{4096, 4096, 2, 3}[g.r.Intn(4)]
 	if mode == "rows" {
 		bf = 4096 // the one-node model is exact only while the tree has a single node
 	}
 	w := newL1World(mode, bf)
 	w.faulty = faulty
+	w.crashy = crashy
 	if faulty {
 		w.bf, bf = 4096, 4096 // request-exact fault plans need single-node trees
 	}
@@ -665,15 +812,20 @@ func runL1History(g *gen, mode string, nops int, hstats map[string]int, faulty b
 			} else {
 				op.pval = int64(g.r.Intn(50))
 			}
+
 		case choice < 50:
 			op.kind = "tomb"
 			op.h, op.key, op.when = pick(), key(), lat()
-			if mode == "rows" && g.r.Intn(3) > 0 {
+			if mode == "rows" && (g.r.Intn(3) > 0 || w.faulty || w.crashy) {
 				op.kind = "set"
 				op.row = g.row(ncols, true)
 			}
 		case choice < 62:
 			op.kind, op.h = "commit", pick()
+			if w.crashy && g.r.Intn(2) == 0 {
+				op.kind = "ccommit"
+				op.seed = g.r.Int63n(1000000)
+			}
 		case choice < 66:
 			op.kind, op.h, op.h2 = "clone", pick(), nextH
 			nextH++
@@ -685,12 +837,34 @@ func runL1History(g *gen, mode string, nops int, hstats map[string]int, faulty b
 			op.kind, op.h = "dump", pick()
 		case choice < 88:
 			op.kind, op.h, op.before = "delhist", pick(), baseTime+int64(g.r.Intn(7))*1000000000-3500000000
+			if mode == "rows" && g.r.Intn(2) == 0 {
+				// the table-level vacuum; cutoffs around the row times and around the version times
+				op.kind = "vacuum"
+				if g.r.Intn(2) == 0 {
+					op.before = lat() + int64(g.r.Intn(3)-1)
+				}
+			}
 		case choice < 93:
 			op.kind, op.h, op.h2 = "diff", pick(), pick()
 		case choice < 97:
 			op.kind, op.h, op.key, op.after = "trace", pick(), key(), baseTime+int64(g.r.Intn(4))*10-10
 		default:
 			op.kind = "list"
+		}
+		if op.kind == "set" && (w.faulty || w.crashy) {
+			// two writes to one key at one time are byte-identical retries (the properties
+			// quantify over distinct write times or identical retries)
+			sub := &gen{rand.New(rand.NewSource(op.when*131 + int64(op.key.i)*17 + int64(len(op.key.bs))*5 + int64(op.key.bits>>40)))}
+			if mode == "rows" {
+				op.row = sub.row(ncols, true)
+			} else {
+				op.pval = int64(sub.r.Intn(50))
+			}
+		}
+		if op.kind == "rmtomb" && w.crashy {
+			// purging tombstones voids "a successor contains its parents" (documented
+			// precondition of RemoveTombstones); purges are the subject of C09/C10
+			op.kind = "dump"
 		}
 		if op.kind == "diff" {
 			// mast's diff fails on a tree emptied in memory (RemoveTombstones); not modelled
@@ -722,10 +896,13 @@ func runL1History(g *gen, mode string, nops int, hstats map[string]int, faulty b
 		if w.fired > firedBefore {
 			hstats["fault_fired_"+op.kind]++
 		}
+		if len(op.faults) > 0 || (faulty && g.r.Intn(12) == 0) {
+			w.exec(&kop{kind: "recover", seed: g.r.Int63n(1000000)}, hstats)
+		}
 		if kn != "" {
 			known = append(known, kn)
 		}
-		if op.kind == "delhist" && w.lastDeleted > 0 {
+		if (op.kind == "delhist" || op.kind == "vacuum") && w.lastDeleted > 0 {
 			// other handles may now point at deleted objects (documented effect of
 			// deleting history); the model keeps whole trees in memory, so stop using them
 			live = []int{op.h}
@@ -741,7 +918,7 @@ func runL1History(g *gen, mode string, nops int, hstats map[string]int, faulty b
 	return w.finish()
 }
 
-func runL1(seed int64, n int, dir string, modes []string, faulty bool) error {
+func runL1(seed int64, n int, dir string, modes []string, faulty, crashy bool) error {
 	g := &gen{rand.New(rand.NewSource(seed))}
 	cf, err := os.Create(dir + "/cases.txt")
 	if err != nil {
@@ -760,7 +937,7 @@ func runL1(seed int64, n int, dir string, modes []string, faulty bool) error {
 	for c := 1; c <= n; c++ {
 		mode := modes[g.r.Intn(len(modes))]
 		nops := 6 + g.r.Intn(30)
-		in, out := runL1History(g, mode, nops, stats, faulty)
+		in, out := runL1History(g, mode, nops, stats, faulty, crashy)
 		fmt.Fprintf(cw, "%d kvhist%s\n", c, in)
 		fmt.Fprintf(iw, "%d%s\n", c, out)
 		stats["hist_"+mode]++
@@ -776,4 +953,19 @@ func runL1(seed int64, n int, dir string, modes []string, faulty bool) error {
 		fmt.Fprintf(sf, "%s %d\n", k, stats[k])
 	}
 	return nil
+}
+
+var theVacuumTable *s3db.VirtualTable
+
+// a registered table (on the built-in in-memory bucket) whose Tree is swapped for the handle
+// under test, so that s3db.Vacuum can be driven at the kv level
+func vacuumTable() *s3db.VirtualTable {
+	if theVacuumTable == nil {
+		t, err := s3db.New(context.Background(), []string{"verif_vacuum_table", "columns=k primary key, c0"})
+		if err != nil {
+			panic(err)
+		}
+		theVacuumTable = t
+	}
+	return theVacuumTable
 }
